@@ -29,11 +29,11 @@ OUTSIDE = ["model construction / merge / clean-up stages and the final equality 
            "parameter reloading from .params (pickle)", "byte content produced by the real collaborators"]
 
 
-def record():
+def record(stage="collect"):
     d = tempfile.mkdtemp(prefix="verif_c07_")
     try:
         layer = c07_driver.Layer(d)
-        out = c07_driver.stage(d, False, layer)
+        out = c07_driver.STAGES[stage](d, False, layer)
         import gc
         gc.collect()
         return layer.events, out
@@ -41,14 +41,15 @@ def record():
         shutil.rmtree(d, ignore_errors=True)
 
 
-def analyse(events):
+def analyse(events, stage="collect"):
     """z3 over the crash index: returns (verdict, k, detail)"""
-    lock = [i for i, (k, p, h) in enumerate(events) if k == "open" and p.endswith("_collected")]
+    suffix = c07_driver.LOCKS[stage]
+    lock = [i for i, (k, p, h) in enumerate(events) if k == "open" and p.endswith(suffix)]
     if not lock:
         return "error", None, "no lock creation recorded"
     L = lock[0]
     # a written handle is durable from its last flush/close after its last write
-    written = sorted({(p, h) for k, p, h in events if k == "write" and not p.endswith("_collected")})
+    written = sorted({(p, h) for k, p, h in events if k == "write" and not p.endswith(suffix)})
     close_idx = {}
     for (p, h) in written:
         last_write = max(i for i, (k, q, hh) in enumerate(events) if (q, hh) == (p, h) and k == "write")
@@ -71,11 +72,12 @@ def analyse(events):
     return str(r), None, {"lock_event": L, "solver_s": dt}
 
 
-def replay(k):
+def replay(k, stage="collect"):
     """kill a real process at event k, then resume in a fresh process"""
     d = tempfile.mkdtemp(prefix="verif_c07r_")
     env = dict(os.environ)
     env["PYTHONPATH"] = VERIF + os.pathsep + REPO
+    env["C07_STAGE"] = stage
     try:
         ref = subprocess.run([sys.executable, "-m", "props.c07_driver", "run", d + "_ref", "-1"], cwd=VERIF, env=env, capture_output=True, text=True, timeout=300)
         os.makedirs(d + "_ref", exist_ok=True)
@@ -97,11 +99,12 @@ def replay(k):
 
 
 def lane(ctx):
-    events, out = record()
+    stage = ctx.get("stage", "collect")
+    events, out = record(stage)
     st = {"paths": 1, "paths_reached_assertion": 1, "paths_infeasible": 0, "queries": 1, "obligations": 1, "discharged": 0, "inconclusive": [],
           "n_inconclusive": 0, "labels": {"stage lock present => every file the skip branch reads is complete": 1}, "excluded": {}, "known_hits": {},
           "samples": [{"label": "recorded file-system event trace of collect_reads_in_parallel", "witness": {"events": events, "result": out}}]}
-    verdict, k, detail = analyse(events)
+    verdict, k, detail = analyse(events, stage)
     st["solver_s"] = detail.get("solver_s", 0) if isinstance(detail, dict) else 0
     st["crash_points_modelled"] = len(events) + 1
     if verdict == "unsat":
@@ -110,14 +113,14 @@ def lane(ctx):
         ks = list(range(len(events) + 1)) if ctx.get("tier") == "thorough" else sorted({0, len(events) // 2, detail["lock_event"], detail["lock_event"] + 1, len(events)})
         st["crash_points_replayed_for_real"] = len(ks)
         for kk in ks:
-            bad, text = replay(kk)
+            bad, text = replay(kk, stage)
             st["obligations"] += 1
             if bad:
                 st["cex"] = {"label": "killed at file event %d and resumed: %s" % (kk, text), "model": {"crash_after_event": kk}, "detail": {"events": events}}
                 break
             st["discharged"] += 1
     elif verdict == "sat":
-        known = "C07-save-file-closed-after-lock"
+        known = "C07-save-file-closed-after-lock" if stage == "collect" else "C07-part-files-closed-after-processed-lock"
         if known in ctx["active"]:
             st["excluded"] = {known: 1}
             st["known_hits"] = {known: {"crash_after_event": k, "detail": detail}}
@@ -125,7 +128,7 @@ def lane(ctx):
             st["obligations"] = 3
             lock_ev = detail["lock_event"]
             for kk, label in ((lock_ev, "crash just before the lock is created"), (len(events), "crash after the stage finished")):
-                bad, text = replay(kk)
+                bad, text = replay(kk, stage)
                 st["labels"][label + " resumes correctly"] = 1
                 if bad:
                     st["cex"] = {"label": label + ": " + text, "model": {"crash_after_event": kk}, "detail": {"events": events}}
@@ -139,17 +142,21 @@ def lane(ctx):
 
 
 def replay_custom(inst, case):
-    bad, text = replay(case["model"]["crash_after_event"])
+    bad, text = replay(case["model"]["crash_after_event"], inst.meta.get("stage", "collect"))
     return bad, text
 
 
 def instances(tier, seed):
-    def run(ctx):
-        ctx = dict(ctx)
-        ctx["tier"] = tier
-        return lane(ctx)
-    return [Instance("collect_stage_crash_points", run=run, kind="z3-trace",
-                     funcs=["src.dataset_processor:collect_reads_in_parallel", "src.assignment_io:TmpFileAssignmentPrinter.__del__",
-                            "src.assignment_io:TmpFileAssignmentPrinter.add_read_info", "src.stats:EnumStats.dump",
-                            "src.dataset_processor:BasicReadAssignmentLoader.get_next"],
-                     bounds="every crash index over the recorded file-system events of one chromosome's read-collection stage", weight=10)]
+    out = []
+    for stage, fn_name in (("collect", "collect_reads_in_parallel"), ("process", "construct_models_in_parallel")):
+        def run(ctx, stage=stage):
+            ctx = dict(ctx)
+            ctx["tier"] = tier
+            ctx["stage"] = stage
+            return lane(ctx)
+        out.append(Instance("%s_stage_crash_points" % stage, run=run, kind="z3-trace", meta={"stage": stage},
+                            funcs=["src.dataset_processor:" + fn_name, "src.assignment_io:TmpFileAssignmentPrinter.__del__",
+                                   "src.assignment_io:AbstractAssignmentPrinter.__del__", "src.assignment_io:BEDPrinter.add_read_info",
+                                   "src.stats:EnumStats.dump", "src.dataset_processor:BasicReadAssignmentLoader.get_next"],
+                            bounds="every crash index over the recorded file-system events of one chromosome's %s stage" % stage, weight=10))
+    return out
